@@ -379,6 +379,7 @@ package xpath
 //@   modifies *
 //@   nopanic
 //@   ensures result != nil && result == old(ctx.res)
+//@   recovers result.runErr != nil
 //@   loop 0 invariant ctx.res == old(ctx.res) && ctx.prog == old(ctx.prog)
 //@   loop 0 invariant forall(i, 0, len(ctx.prog), ctx.prog[i].fn != nil)
 //@   loop 0 invariant ctx.res.runErr == nil
